@@ -165,6 +165,7 @@ func (x *c12wrap) cmdResults() (errVals map[ssa.Value]bool, res func(ssa.Value) 
 
 func c12(r *core.Run) {
 	p := r.P
+	defer c12Extra(r)
 	r.Explanation = "Decides, for every method of redis.Redis and kv.kvStore on the current source: each context-free method forwards to its …Ctx twin with an empty context, its own parameters in order, and returns that call's results; each XxxCtx wrapper issues exactly one go-redis command of its own name (modulo a reasoned exception table), on the node obtained from getRedis(receiver), with its ctx first, inside r.brk.DoWithAcceptable(…, acceptable) whose error it returns; wrapper parameters reach the command's argument positions (option-struct fields and variadic elements flattened in declaration/index order) in declaration order, each exactly through the conversion its types dictate (identity, FormatInt base 10, seconds·time.Second, time.Unix(s,0)), with no parameter dropped and no constant argument outside the table; the closure hands the command's error to the breaker and returns nil only when it is nil (redis.Nil swallowed exactly in GetCtx/GetSetCtx); replies reach the caller through the conversion their types dictate; acceptable is exactly {nil, redis.Nil, context.Canceled}; every single-key kv.Store method routes by the parameter it forwards as the Redis method's key, forwards to the same-named Redis method with parameters in order and returns its results; DelCtx visits every key and deletes each on the node it hashes to."
 	r.NotDecided = "equality of effect on a server and per reachable server state; go-redis itself; the element-wise conversions inside toPairs/toStrings; which parameter go-redis treats as the key (its signatures are trusted to mirror the wrapper's order)."
 	r.Trusted = append(r.Trusted, "go-redis v8 Cmdable signatures mirror the wrapper signatures position by position")
